@@ -39,21 +39,25 @@ TRY_RANGES = try_ranges(_xrun.__file__)
 
 
 def generate(scratch, cases):
-    """One real job directory per case."""
-    wd = Path(scratch) / "ws"
-    jobs = []
+    """One real job directory per case; the workspace directory is named as the case says (`ws`: plain, or with
+    characters a shell would quote - the paths end up as Python literals in the generated script)."""
+    jobs = [None] * len(cases)
     stderr, sys.stderr = sys.stderr, open(os.devnull, "w")
     try:
-        with experiment(wd, "c10", port=-1, run_mode=RunMode.GENERATE_ONLY):
-            for i, case in enumerate(cases):
-                counter = Path(scratch) / "counters" / f"{i}"
-                counter.parent.mkdir(exist_ok=True, parents=True)
-                t = CrashTask(mode=case["launches"][0]["mode"], counter=str(counter))
-                t.submit()
-                job = t.__xpm__.job
-                jobs.append(dict(path=job.path, script=job.path / f"{job.name}.py", pid=job.pidpath,
-                                 lock=job.lockpath, done=job.donepath, failed=job.failedpath,
-                                 counter=counter, stdout=job.stdout, stderr=job.stderr))
+        for wsname in sorted({case.get("ws") or "ws" for case in cases}):
+            wd = Path(scratch) / wsname
+            with experiment(wd, "c10", port=-1, run_mode=RunMode.GENERATE_ONLY):
+                for i, case in enumerate(cases):
+                    if (case.get("ws") or "ws") != wsname:
+                        continue
+                    counter = Path(scratch) / "counters" / f"{i}"
+                    counter.parent.mkdir(exist_ok=True, parents=True)
+                    t = CrashTask(mode=case["launches"][0]["mode"], counter=str(counter))
+                    t.submit()
+                    job = t.__xpm__.job
+                    jobs[i] = dict(path=job.path, script=job.path / f"{job.name}.py", pid=job.pidpath,
+                                   lock=job.lockpath, done=job.donepath, failed=job.failedpath,
+                                   counter=counter, stdout=job.stdout, stderr=job.stderr)
     finally:
         sys.stderr = stderr
     return jobs
